@@ -91,6 +91,9 @@ DRIVER_PRELUDE = r'''
 #include <sys/mman.h>
 
 static long PG;
+/* window marker for memory-access traces (valgrind lackey): stores of 1/0 delimit the call under observation */
+volatile int drv_marker = 0;
+static const char *layout_base;
 static volatile const char *cur_op = "?";
 static volatile int cur_idx = -1;
 
@@ -173,6 +176,7 @@ struct msg_entry {
     const char *name; int nleaves; long nbytes; size_t size;
     void (*set)(void *, const uint64_t **);
     void (*get)(const void *, uint64_t **);
+    void (*lay)(const void *, uint64_t **);
     int (*enc)(void *, unsigned char *);
     int (*dec)(void *, unsigned char *);
     int (*json)(void *, char *);
@@ -200,6 +204,11 @@ int main(void) {
         cur_idx = idx;
         if (OP == 'S') {
             printf("OK %zu %ld %d\n", e->size, e->nbytes, e->nleaves);
+        } else if (OP == 'L') {   /* leaf layout: (offset << 8 | size) per leaf */
+            struct blk sb = blk_alloc(e->size, 0);
+            uint64_t *o = (uint64_t *)calloc((size_t)e->nleaves + 1, 8); uint64_t *po = o;
+            layout_base = (const char *)sb.p; e->lay(sb.p, &po);
+            printf("OK "); put_leaves(o, e->nleaves); printf("\n"); free(o); blk_free(&sb);
         } else if (OP == 'E' || OP == 'J' || OP == 'R') {
             uint64_t *v = (uint64_t *)calloc((size_t)e->nleaves + 1, 8);
             if (get_leaves(arg, v, e->nleaves)) { printf("ERR leaves\n"); fflush(stdout); free(v); continue; }
@@ -210,10 +219,10 @@ int main(void) {
                 e->get(sb.p, &po); printf("OK "); put_leaves(o, e->nleaves); printf("\n"); free(o);
             } else if (OP == 'E') {
                 struct blk wb = blk_alloc((size_t)e->nbytes, low);
-                cur_op = "Encode"; e->enc(sb.p, wb.p); cur_op = "?";
+                cur_op = "Encode"; drv_marker = 1; e->enc(sb.p, wb.p); drv_marker = 0; cur_op = "?";
                 int c1 = blk_check(&wb), c2 = blk_check(&sb);
                 if (c1 || c2) printf("CANARY wire=%d struct=%d ", c1, c2); else printf("OK ");
-                puthex(wb.p, (size_t)e->nbytes); printf("\n");
+                puthex(wb.p, (size_t)e->nbytes); printf(" @%p,%ld,%p,%zu\n", (void *)wb.p, e->nbytes, (void *)sb.p, e->size);
                 blk_free(&wb);
             } else {
                 if (!e->json) { printf("ERR nojson\n"); }
@@ -235,12 +244,12 @@ int main(void) {
             size_t n = unhex(arg, tmp);
             struct blk wb = blk_alloc(n, low); memcpy(wb.p, tmp, n); free(tmp);
             struct blk sb = blk_alloc(e->size, low);
-            cur_op = "Decode"; e->dec(sb.p, wb.p); cur_op = "?";
+            cur_op = "Decode"; drv_marker = 1; e->dec(sb.p, wb.p); drv_marker = 0; cur_op = "?";
             int c1 = blk_check(&wb), c2 = blk_check(&sb);
             uint64_t *o = (uint64_t *)calloc((size_t)e->nleaves + 1, 8); uint64_t *po = o;
             e->get(sb.p, &po);
             if (c1 || c2) printf("CANARY wire=%d struct=%d ", c1, c2); else printf("OK ");
-            put_leaves(o, e->nleaves); printf("\n"); free(o);
+            put_leaves(o, e->nleaves); printf(" @%p,%zu,%p,%zu\n", (void *)wb.p, n, (void *)sb.p, e->size); free(o);
             blk_free(&wb); blk_free(&sb);
         } else {
             printf("ERR op\n");
@@ -287,11 +296,17 @@ class DriverGen:
             sn = c_type_name(m)
             out.append(f"static void set_{sn}(void *p, const uint64_t **pv);")
             out.append(f"static void get_{sn}(const void *p, uint64_t **pv);")
+            out.append(f"static void lay_{sn}(const void *p, uint64_t **pv);")
         for m in self.messages:
             sn = c_type_name(m)
             body_set: List[str] = []
             body_get: List[str] = []
+            body_lay: List[str] = []
             for f in m.sorted_fields:
+                body_lay += self._walk(
+                    f.type, f"m->{f.name}", 0,
+                    lambda e: f"*(*pv)++ = ((uint64_t)((const char *)&({e}) - layout_base) << 8) | sizeof({e});",
+                    lambda mm, e: f"lay_{c_type_name(mm)}(&({e}), pv);")
                 body_set += self._walk(
                     f.type, f"m->{f.name}", 0,
                     lambda e: f"leaf_set(&({e}), sizeof({e}), *(*pv)++);",
@@ -304,6 +319,8 @@ class DriverGen:
             out += ["    " + s for s in body_set] + ["}"]
             out.append(f"static void get_{sn}(const void *p, uint64_t **pv) {{ const struct {sn} *m = (const struct {sn} *)p; (void)m; (void)pv;")
             out += ["    " + s for s in body_get] + ["}"]
+            out.append(f"static void lay_{sn}(const void *p, uint64_t **pv) {{ const struct {sn} *m = (const struct {sn} *)p; (void)m; (void)pv;")
+            out += ["    " + s for s in body_lay] + ["}"]
             out.append(f"static int enc_{sn}(void *p, unsigned char *s) {{ return Encode{sn}((struct {sn} *)p, s); }}")
             out.append(f"static int dec_{sn}(void *p, unsigned char *s) {{ return Decode{sn}((struct {sn} *)p, s); }}")
             if self.with_json:
@@ -312,7 +329,7 @@ class DriverGen:
         for m in self.messages:
             sn = c_type_name(m)
             js = f"json_{sn}" if self.with_json else "NULL"
-            out.append(f'    {{"{sn}", {ref.count_leaves(m)}, {c_size_macro(m)}, sizeof(struct {sn}), set_{sn}, get_{sn}, enc_{sn}, dec_{sn}, {js}}},')
+            out.append(f'    {{"{sn}", {ref.count_leaves(m)}, {c_size_macro(m)}, sizeof(struct {sn}), set_{sn}, get_{sn}, lay_{sn}, enc_{sn}, dec_{sn}, {js}}},')
         out.append("};")
         out.append(DRIVER_MAIN)
         return "\n".join(out) + "\n"
@@ -347,6 +364,10 @@ CONFIGS: Dict[str, Dict[str, Any]] = {
     "gcc-O2-BE": dict(cc="gcc", flags=["-O2", "-DBP_BIG_ENDIAN", "-DDRV_BE_STORAGE"], single=True),
     "clang-O2-BE": dict(cc="clang", flags=["-O2", "-DBP_BIG_ENDIAN", "-DDRV_BE_STORAGE"], single=False),
     "gcc-asan-BE": dict(cc="gcc", flags=["-O1", "-DBP_BIG_ENDIAN", "-DDRV_BE_STORAGE"] + SAN, single=False, asan=True),
+    # access-width tracing builds (valgrind lackey): -O0 so the compiler neither merges nor splits accesses
+    "trace-LE": dict(cc="gcc", flags=["-O0", "-g", "-fno-builtin", "-no-pie"], single=False),
+    "trace-BE": dict(cc="gcc", flags=["-O0", "-g", "-fno-builtin", "-no-pie", "-DBP_BIG_ENDIAN", "-DDRV_BE_STORAGE"], single=False),
+    "trace-optBE": dict(cc="gcc", flags=["-O0", "-g", "-fno-builtin", "-no-pie", "-DBP_BIG_ENDIAN"], single=False),
     # positive control for the big-endian monitor: big-endian storage fed to the little-endian build must FAIL
     "gcc-O0-LE-on-BE-storage": dict(cc="gcc", flags=["-O0", "-DDRV_BE_STORAGE"], single=False),
 }
